@@ -35,6 +35,7 @@ class Ctx:
         self.witness = witness
         self.consts = {}  # name -> z3 Real (sym mode)
         self.bools = {}  # name -> z3 Bool (sym mode; abstract-domain harnesses)
+        self.scripted = False  # harness forks on nondeterministic choices: replays need the decision script
         if self.mode == "real" and witness is not None and "__decisions__" in witness:
             eng.script = list(witness["__decisions__"])
             eng.script_pos = 0
@@ -184,7 +185,7 @@ def find_witnesses(ctx, extra, k=1):
                         dyadic = False
                     vals[n] = str(fixed)
                 # the fixed values are jointly satisfiable by construction (each step checked)
-                if ctx.bools:
+                if ctx.bools or ctx.scripted:
                     if names:
                         if str(eng.check()) == "sat":
                             m = eng.s.model()
@@ -371,7 +372,7 @@ def sym_worker(args):
             if want and rate < 1.0 and eng.stats.paths > 0:
                 hsh = int(hashlib.sha1(repr((job, eng.trace)).encode()).hexdigest()[:8], 16) / 0xFFFFFFFF
                 want = hsh < rate or any(o["status"] != "ok" for o in ctx.obligations)
-            if want and (ctx.consts or ctx.bools):
+            if want and (ctx.consts or ctx.bools or ctx.scripted):
                 ws = find_witnesses(ctx, [], k=1)
                 if ws:
                     w = ws[0]
